@@ -172,14 +172,14 @@ int reproc_poll(reproc_event_source *sources, size_t num_sources, int timeout)
   REQ_(timeout >= -1 && num_sources <= VERIF_NSRC)
   ASSIGNS(sources != NULL: __CPROVER_object_whole(sources); G_ERR, G_POLL)
   ENS("C14/reproc_poll.error_ghost_sane", G_ERR_SANE && g.now >= OLD(g.now))
-  ENS("C14/reproc_poll.misuse_is_einval", IMPLIES(sources == NULL || num_sources == 0, RV == -EINVAL && OS_UNTOUCHED))
+  ENSX("C14/reproc_poll.misuse_is_einval", IMPLIES(sources == NULL || num_sources == 0, RV == -EINVAL && OS_UNTOUCHED))
   ENS("C09/reproc_poll.sources_not_rewritten", IMPLIES(sources != NULL && num_sources != 0, ALL_K(KEPT)))
   ENS("C09/reproc_poll.epipe_only_if_nothing_can_be_polled", IMPLIES(sources != NULL && num_sources != 0 && RV == -EPIPE, !ANY_K(VALID_ANY) && g.pl.poll_calls == OLD(g.pl.poll_calls)))
   ENS("C09/reproc_poll.events_subset_of_interests", IMPLIES(sources != NULL && num_sources != 0 && RV >= 0, ALL_K(EV_SUBSET)))
   ENS("C09/reproc_poll.stream_events_only_for_streams_that_can_be_polled", IMPLIES(sources != NULL && num_sources != 0 && RV >= 0, ALL_K(EV_ONLY_VALID)))
   ENS("C08/reproc_poll.infinite_timeout_returns_with_an_event", IMPLIES(sources != NULL && num_sources != 0 && timeout == -1 && RV >= 0, RV >= 1))
-  ENS("C09/reproc_poll.result_counts_sources_with_events", IMPLIES(sources != NULL && num_sources != 0 && RV >= 0, RV == EV_COUNT))
-  ENS("C04/reproc_poll.errors", IMPLIES(sources != NULL && num_sources != 0 && RV < 0 && RV != -EPIPE, g.e.faults > OLD(g.e.faults) && IMPLIES(OLD(g.e.faults) == 0, RV == -g.e.first_errno)))
+  ENSX("C09/reproc_poll.result_counts_sources_with_events", IMPLIES(sources != NULL && num_sources != 0 && RV >= 0, RV == EV_COUNT))
+  ENSX("C04/reproc_poll.errors", IMPLIES(sources != NULL && num_sources != 0 && RV < 0 && RV != -EPIPE, g.e.faults > OLD(g.e.faults) && IMPLIES(OLD(g.e.faults) == 0, RV == -g.e.first_errno)))
   ENS("C05/reproc_poll.ledger_unchanged", g.fds.open == OLD(g.fds.open) && g.fds.lib == OLD(g.fds.lib))
   ;
 
@@ -328,13 +328,13 @@ int reproc_read(reproc_t *process, REPROC_STREAM stream, uint8_t *buffer, size_t
   ENS("C02+C14/reproc_read.closed_or_unpiped_stream_is_epipe", IMPLIES(RD_ARGS_OK && RD_PIPE0 == -1, RV == -EPIPE && OS_UNTOUCHED && HANDLE_UNCHANGED))
   ENS("C02/reproc_read.one_read_on_that_stream", IMPLIES(RD_ARGS_OK && RD_PIPE0 != -1, g.rl.rd_calls == OLD(g.rl.rd_calls) + 1 && g.rl.rd_fd == RD_PIPE0 && g.rl.rd_buf == (const void *) buffer && g.rl.rd_n == size && g.wl.wr_calls == OLD(g.wl.wr_calls) && g.pl.poll_calls == OLD(g.pl.poll_calls)))
   ENS("C02/reproc_read.result_is_kernels", IMPLIES(RD_ARGS_OK && RD_PIPE0 != -1, (g.rl.rd_ret > 0 ? RV == g.rl.rd_ret : g.rl.rd_ret == 0 ? RV == -EPIPE : (RV == -g.rl.rd_errno && RV < 0))))
-  ENS("C02/reproc_read.epipe_only_at_end_of_stream", IMPLIES(RD_ARGS_OK && RD_PIPE0 != -1 && RV == -EPIPE, g.rl.rd_ret == 0))
+  ENSX("C02/reproc_read.epipe_only_at_end_of_stream", IMPLIES(RD_ARGS_OK && RD_PIPE0 != -1 && RV == -EPIPE, g.rl.rd_ret == 0))
   ENS("C02/reproc_read.epipe_is_sticky", IMPLIES(RD_ARGS_OK && RV == -EPIPE, RD_PIPE == -1 && g.fds.open == (OLD(g.fds.open) & ~MASK_OF(RD_PIPE0)) && g.fds.lib == (OLD(g.fds.lib) & ~MASK_OF(RD_PIPE0))))
   ENS("C02/reproc_read.stream_kept_open_otherwise", IMPLIES(RD_ARGS_OK && RV != -EPIPE, RD_PIPE == RD_PIPE0 && g.fds.open == OLD(g.fds.open) && g.fds.lib == OLD(g.fds.lib)))
-  ENS("C17/reproc_read.ewouldblock", IMPLIES(RD_ARGS_OK && RD_PIPE0 != -1 && g.rl.rd_ret < 0 && g.rl.rd_errno == EAGAIN, RV == REPROC_EWOULDBLOCK))
-  ENS("C17/reproc_read.nonblocking_never_sleeps", IMPLIES(process != NULL && P0(nonblocking), g.may_block == OLD(g.may_block)))
+  ENSX("C17/reproc_read.ewouldblock", IMPLIES(RD_ARGS_OK && RD_PIPE0 != -1 && g.rl.rd_ret < 0 && g.rl.rd_errno == EAGAIN, RV == REPROC_EWOULDBLOCK))
+  ENSX("C17/reproc_read.nonblocking_never_sleeps", IMPLIES(process != NULL && P0(nonblocking), g.may_block == OLD(g.may_block)))
   ENS("C14/reproc_read.other_fields_kept", IMPLIES(process != NULL, INV(process) && process->status == P0(status) && process->handle == P0(handle) && process->pipe.in == P0(pipe.in) && process->pipe.exit == P0(pipe.exit) && process->deadline == P0(deadline) && (stream == REPROC_STREAM_OUT || process->pipe.out == P0(pipe.out)) && (stream == REPROC_STREAM_ERR || process->pipe.err == P0(pipe.err))))
-  ENS("C06/reproc_read.no_process_effect", g.nsig == OLD(g.nsig) && g.reaps == OLD(g.reaps) && g.kill_calls == OLD(g.kill_calls) && g.wait_calls == OLD(g.wait_calls))
+  ENSX("C06/reproc_read.no_process_effect", g.nsig == OLD(g.nsig) && g.reaps == OLD(g.reaps) && g.kill_calls == OLD(g.kill_calls) && g.wait_calls == OLD(g.wait_calls))
   ;
 
 #define WR_ARGS_OK (process != NULL && P0(status) != ST_IN_CHILD)
